@@ -29,6 +29,25 @@ EXPECT_OBJECTS = {
     "src/parson.c": {"parson_malloc", "parson_free", "parson_escape_slashes"},  # written only by json_set_* (never called)
 }
 EXPECT_TLS = {"src/rt/ovni.c": {"rthread"}, "src/common.c": set(), "src/parson.c": set()}
+# external (libc) functions the library may call: each was looked at for hidden shared state.  POSIX lists strerror, getenv
+# and readdir as "need not be thread-safe": glibc's strerror returns constant strings for known errnos (a TLS buffer otherwise),
+# getenv only races with setenv/putenv (never called by the library), readdir is used on a DIR private to the caller.
+EXPECT_IMPORTS = {
+    "__errno_location", "__tls_get_addr", "__ctype_b_loc", "_GLOBAL_OFFSET_TABLE_", "__stack_chk_fail", "stderr",
+    "abort", "clock_gettime", "close", "closedir", "fclose", "ferror", "fopen", "fprintf", "fputc", "fputs", "fread", "free",
+    "fseek", "ftell", "fwrite", "getenv", "malloc", "memcmp", "memcpy", "memmove", "memset", "mkdir", "open", "opendir",
+    "readdir", "remove", "rewind", "rmdir", "snprintf", "sprintf", "stat", "strchr", "strcmp", "strcpy", "strdup", "strerror",
+    "strlen", "strncmp", "strpbrk", "strstr", "strtod", "strtok_r", "strtol", "strtoll", "vfprintf", "write",
+    "rename", "unlink", "fflush", "fileno", "fsync", "realloc", "calloc", "strncpy", "strnlen", "memchr", "strrchr",   # stateless / per-object, harmless if they appear
+    "vsnprintf", "puts", "putc", "fputs_unlocked", "__fprintf_chk", "__snprintf_chk", "__sprintf_chk", "__vfprintf_chk",
+    "__memcpy_chk", "__strcpy_chk", "__memset_chk", "__open_2", "__isoc99_sscanf", "getpid", "gettid", "syscall", "sched_yield",
+    "access", "lstat", "fstat", "__xstat", "__fxstat", "__lxstat", "read", "pread", "pwrite", "lseek",
+}
+# functions of the C library that keep hidden process-wide state (POSIX "need not be thread-safe" and friends)
+MT_UNSAFE = {"strtok", "strerror_l", "asctime", "ctime", "gmtime", "localtime", "rand", "srand", "random", "srandom", "drand48", "lrand48",
+             "mrand48", "getlogin", "ttyname", "basename", "dirname", "setlocale", "localeconv", "tmpnam", "mktemp", "setenv", "putenv", "unsetenv",
+             "gethostbyname", "getpwnam", "getpwuid", "getgrnam", "getgrgid", "strsignal", "ecvt", "fcvt", "gcvt", "l64a", "getopt", "wcstombs", "mblen",
+             "mbtowc", "wctomb", "crypt", "readdir_r", "nl_langinfo", "inet_ntoa", "getdate", "lgamma", "hsearch", "hcreate", "ptsname", "catgets"}
 HOOK_OBJECTS = re.compile(r"^cap\.\d+$")       # lazily initialised capacity of the OVNI_VERIF_EVBUF hook (only with -DOVNI_VERIF)
 SETTERS = ["progname_set", "enable_debug", "json_set_allocation_functions", "json_set_escape_slashes",
            "json_set_float_serialization_format", "json_set_number_serialization_function"]
@@ -346,6 +365,27 @@ def symbol_crosscheck(chk, build, wd):
             if tls != EXPECT_TLS[rel]:
                 msgs.append("BROKEN-TIE %s: thread-local objects %s, the model expects %s" % (rel, sorted(tls), sorted(EXPECT_TLS[rel])))
     chk.coverage["process_level_objects"] = seen
+    # external calls: a function with hidden process-wide state (strtok's cursor, localtime's buffer ...) makes two tracing
+    # threads interfere without any object of the library being shared; anything not looked at yet fails closed
+    defined, undefined = set(), {}
+    for rel in EXPECT_OBJECTS:
+        obj = os.path.join(wd, "sym-%s-0.o" % os.path.basename(rel))
+        rc, o, _ = common.run(["nm", "-g", obj])
+        for line in o.split("\n"):
+            f = line.split()
+            if len(f) == 3 and f[1] in "TDBRWVtdbr":
+                defined.add(f[2])
+            elif len(f) == 2 and f[0] == "U":
+                undefined.setdefault(f[1], set()).add(rel)
+    ext = {n: sorted(w) for n, w in undefined.items() if n not in defined}
+    chk.coverage["external_calls"] = sorted(ext)
+    for n in sorted(ext):
+        base = re.sub(r"^__(?:isoc99_|isoc23_)?|_chk$", "", n)
+        if n in MT_UNSAFE or base in MT_UNSAFE:
+            msgs.append("BROKEN-TIE %s calls `%s`, a C library function with hidden process-wide state: two threads inside the library interfere through it"
+                        % ("/".join(ext[n]), n))
+        elif n not in EXPECT_IMPORTS:
+            msgs.append("BROKEN-TIE %s calls the external function `%s`, which the thread-safety review of the model does not cover" % ("/".join(ext[n]), n))
     return msgs
 
 
@@ -497,6 +537,19 @@ def gen_trial(r, kind, k):
             t["threads"].append(prog)
             t["may_refuse"].append({x for x, o in enumerate(prog) if o[0] in "ICKF"})
         t["main_init"] = 1
+    elif kind == "lockstep":
+        # serialised runs: one thread at a time, switched at the libc calls of the library (see harness/rtconc_drv.c);
+        # legal programs only, so every refusal and every foreign byte is a violation
+        n = r.range(2, 4)
+        for i in range(n):
+            prog = [o for o in tracing_prog(r, i, base + i, n, rank=rank) if o[0] not in "USY"]
+            if MODELS and not any(o[0] == "R" for o in prog) and r.chance(1, 2):
+                prog.insert(1, "R%s:%s" % r.choice(MODELS))
+            t["threads"].append(prog)
+            t["may_refuse"].append(set())
+        t["main_init"] = 1
+        t["main_fini"] = 1
+        t["lockstep"] = 1 + r.below(1 << 30)
     else:
         n = r.range(2, 8)
         heavy = r.chance(1, 5)
@@ -511,6 +564,8 @@ def gen_trial(r, kind, k):
 def script_of(t):
     lines = ["proc %d %s %d" % (t["app"], t["loom"], t["pid"]), "main_init %d" % t["main_init"],
              "main_fini %d" % t["main_fini"], "drop 1"]
+    if t.get("lockstep"):
+        lines.append("lockstep %d" % t["lockstep"])
     for i, ops in enumerate(t["threads"]):
         lines.append("thread %d %s" % (i, " ".join(ops)))
     return "\n".join(lines) + "\n"
@@ -940,12 +995,12 @@ def build_drivers(build):
     if not os.path.exists(hx):
         common.cc_harness(hx + ".tmp", [src], build,
                           extra=[os.path.join(build.libdir, "libovni-static.a"), os.path.join(build.path, "src", "libparson-static.a"),
-                                 os.path.join(build.path, "src", "libcommon-static.a"), "-lpthread"])
+                                 os.path.join(build.path, "src", "libcommon-static.a"), "-lpthread", "-ldl"])
         os.replace(hx + ".tmp", hx)
     tsan_err = None
     if not os.path.exists(tx):
         # the shipped sources (no -DOVNI_VERIF: the EVBUF hook keeps a lazily initialised static) compiled into the driver
-        cmd = ["clang", "-std=gnu11", "-O1", "-g", "-w", "-fsanitize=thread", "-fno-omit-frame-pointer", "-o", tx + ".tmp", src] + \
+        cmd = ["clang", "-std=gnu11", "-O1", "-g", "-w", "-fsanitize=thread", "-fno-omit-frame-pointer", "-DRTCONC_NO_LOCKSTEP", "-o", tx + ".tmp", src] + \
               [os.path.join(common.REPO, s) for s in EXPECT_OBJECTS] + _iflags(build, False) + ["-lpthread"]
         rc, o, e = common.run(cmd, timeout=600)
         if rc != 0:
@@ -1008,7 +1063,8 @@ def run(chk):
         MODELS[:] = emu_models()
         trials = []
         for kind, n in (("init", chk.budget(200, 2000)), ("fini", chk.budget(200, 2000)), ("iso", chk.budget(100, 1000)),
-                        ("init-pure", chk.budget(400, 4000)), ("fini-pure", chk.budget(400, 4000))):
+                        ("init-pure", chk.budget(400, 4000)), ("fini-pure", chk.budget(400, 4000)),
+                        ("lockstep", chk.budget(160, 1600))):
             for k in range(n):
                 trials.append(gen_trial(rng.fork("%s%d" % (kind, k)), kind, k))
 
@@ -1206,5 +1262,7 @@ def run(chk):
     chk.coverage["rule"] = ("each trial = one process running harness/rtconc_drv with 2-10 pthreads behind a start barrier and scripted yields/spins/sleeps: "
                             "init trials race ovni_proc_init (winner and late joiners then trace), fini trials race ovni_proc_fini after tracing (optionally with a "
                             "bystander still tracing), iso trials run random per-thread programs (emit/flush/attr/cpu/rank/require/free, 1 in 7 with an illegal call); "
+                            "lockstep trials run 2-4 legal tracing programs serialised, one thread at a time, switching pseudo-randomly at the libc calls the library makes "
+                            "(strtol, strtod, snprintf, open, fopen, fclose, write, mkdir) so that a window between two libc calls of one API function is as wide as a whole run of the others; "
                             "a quarter with OVNI_TMPDIR; non-trivial = distinct script; the decider is a sequential per-thread spec in Python, the model prediction is "
                             "compared separately; TSan runs a subset of the same scripts; model-run = whole-system run of the extracted model under a random schedule")
